@@ -33,6 +33,7 @@ def run(ctx):
     min_hyperbolic(ctx, g)
     good_list(ctx, g)
     orbifold_key(ctx, g)
+    canonical_assignment(ctx, g)
     ctx.clauses.append("the generator's private orientation / orbit routines look at every operation 0..=dim() (T4)")
     gb = [b for d, b in sorted(ctx.facts.bodies.items()) if d.startswith(M) and "{closure" not in d]
     ctx.scan(gb)
@@ -146,6 +147,106 @@ def orbifold_key(ctx, g):
     ctx.ob("T9-orbifold-key", b.name, "which degree goes where", "ok" if not missing else "violation",
            "2 -> corners at a chamber fixed by 0 and 2, 2 -> cones where 0 and 2 agree off the mirror; v > 1 -> corners on a chain orbit, cones otherwise" if not missing else
            "the degrees are not sorted into cones / corners as: fixed by 0 and 2 -> corner 2; d.0 = d.2 != d -> cone 2; v[i] > 1 on a chain -> corner, else cone (unmatched: %s)" % missing)
+
+
+def canonical_assignment(ctx, g):
+    """irredundancy: an assignment of branching numbers is emitted only if no automorphism of the D-set carries it to a lexicographically LARGER one.
+    orbit_maps: for EVERY automorphism `map`, m[orbit_index[i][d]] = orbit_index[i][map[d]] over all adjacent index pairs i in 0..dim and all
+    chambers; is_canonical: for EVERY such m the permuted list ws[i] = vs[m[i]] over all orbits is compared with vs as a whole (slice order),
+    false exactly on ws > vs"""
+    ctx.clauses.append("one assignment per automorphism class: orbit permutations from all automorphisms over all orbits; is_canonical rejects exactly ws > vs for ws[i] = vs[m[i]] (T9)")
+    ob = ctx.body(M + "orbit_maps")
+    ctx.scan([ob])
+    dset, oi = ("param", 1, ob.debug.get(1, "")), ("param", 3, ob.debug.get(3, ""))
+    stores = []
+    for bi, si, s in ob.assigns():
+        if [e["k"] for e in s["place"]["p"]] == ["deref"]:
+            tgt = strip(norm(ob.local_origin(s["place"]["l"]), g))
+            if is_call(tgt, "IndexMut::index_mut"):
+                stores.append((bi, strip(tgt[2][0]), strip(tgt[2][1]), strip(norm(ob.rv_origin(s["rv"]), g))))
+    bad = None
+    if len(stores) != 1:
+        bad = "%d indexed stores" % len(stores)
+    else:
+        bi, arr, key, val = stores[0]
+        k1, k2 = as_index(key), as_index(val)
+        k1r = as_index(k1[0]) if k1 else None
+        k2r = as_index(k2[0]) if k2 else None
+        ok = k1 and k2 and k1r and k2r and k1r[0] == oi and k2r[0] == oi and strip(k1r[1]) == strip(k2r[1])
+        if not ok:
+            bad = "not m[orbit_index[i][d]] = orbit_index[i][map[d]]: %s <- %s" % (show(key, 1)[:40], show(val, 1)[:40])
+        else:
+            i_t, d_t = strip(k1r[1]), strip(k1[1])
+            md = as_index(strip(k2[1]))
+            ri, rd = loop_range_of_payload(ob, i_t, g), loop_range_of_payload(ob, d_t, g)
+            msrc = iter_source(ob, md[0], g) if md else None
+            if not (md and strip(md[1]) == d_t):
+                bad = "the image orbit is not looked up at map[d]"
+            elif not (isinstance(msrc, tuple) and contains(norm(msrc, g), lambda y: is_call(y, "DSet::automorphisms") and strip(y[2][0]) == dset)):
+                bad = "the maps are not all of dset.automorphisms()"
+            elif not (ri and eval_int(ri[0]) == 0 and not ri[2] and (is_call(strip(ri[1]), "::dim") or strip(ri[1]) == ("field", dset, "dim")) and
+                      rd and eval_int(rd[0]) == 1 and rd[2] and (is_call(strip(rd[1]), "::size") or strip(rd[1]) == ("field", dset, "size"))):
+                bad = "not over all adjacent index pairs i in 0..dim() and all chambers 1..=size()"
+            else:
+                pushes = [bb for bb, t in ob.calls("::push")]
+                lp = loop_containing(ob, bi)
+                if len(pushes) != 1:
+                    bad = "not one permutation pushed per automorphism"
+    ctx.ob("T9-canonical-assignment", ob.name, "orbit permutation", "ok" if not bad else "violation", "m[orbit_index[i][d]] = orbit_index[i][map[d]] for every automorphism, index pair and chamber" if not bad else bad)
+    cb = ctx.body(M + "DSymBackTracking::is_canonical")
+    ctx.scan(ctx.facts.with_closures(cb.name))
+    me, vs = ("param", 1, cb.debug.get(1, "")), ("param", 2, cb.debug.get(2, ""))
+    bad = None
+    cmps = [(bi, t) for bi, t in cb.calls() if t["callee"].get("def", "").endswith(("PartialOrd::gt", "PartialOrd::lt", "PartialOrd::ge", "PartialOrd::le", "PartialOrd::partial_cmp", "Ord::cmp"))]
+    if len(cmps) != 1:
+        bad = "%d order comparisons" % len(cmps)
+    else:
+        bi, t = cmps[0]
+        nm = t["callee"]["def"].split("::")[-1]
+        a = [strip(norm(cb.origin(x), g)) for x in t["args"]]
+        full = lambda z: map_term(z, lambda y: norm(cb.local_origin(y[1]), g) if y[0] == "local" and cb.is_stable_local(y[1]) else None)
+        l_, r_ = strip(full(a[0])), strip(full(a[1]))
+        is_vs = lambda z: z == vs or (contains(z, lambda y: y == vs) and not contains(z, lambda y: is_call(y, "Iterator::map")))
+        if nm == "gt" and is_vs(r_) and not is_vs(l_):
+            ws = l_
+        elif nm == "lt" and is_vs(l_) and not is_vs(r_):
+            ws = r_
+        else:
+            ws = None
+        if ws is None:
+            bad = "the test is not `ws > vs` (or `vs < ws`): %s(%s, %s)" % (nm, show(l_, 1)[:30], show(r_, 1)[:30])
+        else:
+            maps = [y for y in subterms(ws) if is_call(y, "Iterator::map")]
+            if len(maps) != 1:
+                bad = "ws is not one map over the orbits"
+            else:
+                res = apply_closure(ctx.facts, strip(maps[0][2][1]), [("local", -1, "i")], g)
+                res = strip(res) if res is not None else None
+                ai = as_index(res) if res is not None else None
+                inner = as_index(strip(ai[1])) if ai else None
+                rng = range_of(cb, strip(maps[0][2][0]), g)
+                msrc = iter_source(cb, inner[0], g) if inner else None
+                if not (ai and ai[0] == vs and inner and strip(inner[1]) == ("local", -1, "i")):
+                    bad = "ws[i] is not vs[m[i]]: %s" % (show(res, 1)[:50] if res else None)
+                elif not (rng and eval_int(rng[0]) == 0 and not rng[2] and contains(rng[1], lambda y: y == vs)):
+                    bad = "ws does not range over all orbits 0..vs.len()"
+                elif not (isinstance(msrc, tuple) and contains(norm(msrc, g), lambda y: y[0] == "field" and y[2] == "orbit_maps")):
+                    bad = "m does not range over self.orbit_maps"
+                else:
+                    # false exactly when the comparison holds, true after the loop
+                    rets = {}
+                    for dbb, d in cb.all_defs_origins(0):
+                        d = strip(norm(d, g))
+                        if d[0] == "int" or d[0] == "bool":
+                            rets[dbb] = bool(d[1])
+                    def holds_at(bb, val):
+                        return any(x[0] == "bool" and x[2] is val and strip(x[1]) == ("call", t["callee"]["def"], tuple(a)) or
+                                   (x[0] == "bool" and x[2] is val and x[1][0] == "call" and x[1][1] == t["callee"]["def"]) for x in (atom_norm(y, g) for y in cb.facts_at(bb)))
+                    f_ = [bb for bb, v in rets.items() if v is False]
+                    t_ = [bb for bb, v in rets.items() if v is True]
+                    if len(f_) != 1 or len(t_) != 1 or not holds_at(f_[0], True) or holds_at(t_[0], True):
+                        bad = "false is not returned exactly when some ws > vs, true otherwise"
+    ctx.ob("T9-canonical-assignment", cb.name, "ws > vs", "ok" if not bad else "violation", "for every orbit permutation m: ws[i] = vs[m[i]] over all orbits; false iff ws > vs" if not bad else bad)
 
 
 def windows(ctx, g):
